@@ -50,6 +50,16 @@ func catchS(f func()) (msg string) {
 	return ""
 }
 
+//go:noinline
+func installAndDrop(c sigCase, mode string, seen *bool) {
+	b := mocker.Create()
+	if mode == "apply" {
+		c.apply(b, seen)
+	} else {
+		c.stub(b)
+	}
+}
+
 // TestVerifZoo: for every generated signature: Apply a callback that checks the exact arguments it sees and
 // returns marked results, call through every form right after the apply and after forced collections, Reset and
 // call again; then the same with a Return stub.
@@ -120,6 +130,34 @@ func TestVerifZoo(t *testing.T) {
 				d = p
 			}
 			emit(mode, "after-reset", "direct", d == "", d)
+			// the builder is dropped while the mock stays installed: the replacement must stay alive (it is referenced
+			// from machine code only; goom's global patch table is its GC root), across collections
+			seen2 := false
+			if p := catchS(func() { installAndDrop(c, mode, &seen2) }); p != "" {
+				emit(mode, "builder-dropped", "configure", false, p)
+				continue
+			}
+			churn()
+			churn()
+			for _, form := range []string{"direct", "go"} {
+				seen2 = false
+				var d2 string
+				if p := catchS(func() { d2 = c.call(form, want) }); p != "" {
+					d2 = p
+				} else if d2 == "" && mode == "apply" && !seen2 {
+					d2 = "the callback did not see exactly the caller's arguments"
+				}
+				emit(mode, "builder-dropped-after-gc", form, d2 == "", d2)
+			}
+			// put the original back through a second builder (re-mock, then reset)
+			b2 := mocker.Create()
+			catchS(func() { c.stub(b2) })
+			b2.Reset()
+			d = ""
+			if p := catchS(func() { d = c.call("direct", 0) }); p != "" {
+				d = p
+			}
+			emit(mode, "after-second-reset", "direct", d == "", d)
 		}
 	}
 }
